@@ -124,6 +124,7 @@ def _real_load(k):
 def sym_mods(key="dft"):
     if key not in _SYM:
         _SYM[key] = Mods(_sym_load)
+        _SYM[key]._ctx = ctx()
     return _SYM[key]
 
 
